@@ -183,7 +183,12 @@ temporary_stack_initializer::~temporary_stack_initializer() noexcept
     // don't destroy, nifty counter does that
     // but can get rid of all the memory
     if (temp_stack)
+    {
         temporary_stack_list_obj.clear(*temp_stack);
+        // the stack is marked as free now and may be adopted by another thread:
+        // this thread must ask for a stack again before it uses one
+        temp_stack = nullptr;
+    }
 }
 
 temporary_stack& foonathan::memory::get_temporary_stack(std::size_t initial_size)
